@@ -6,7 +6,7 @@ use crate::fdrive::{check_terminal, drain_stream, show, SEv};
 use crate::indep::{self, Enc, ParseEnd};
 use crate::pb::Msg;
 use crate::rawcodec::{RawCfg, RawCodec, RawMsg};
-use crate::seams::{cut_bytes, ErrKind, Ev, SimBody};
+use crate::seams::{cut_bytes, ErrKind, Ev, Segmented, SimBody};
 use bytes::Bytes;
 use http::{HeaderMap, HeaderValue, StatusCode};
 use prost::Message;
@@ -242,7 +242,7 @@ pub fn run(sim: &Sim, _idx: u64) {
     });
     sim.ev(|| format!("config: dir={direction} enc={enc:?} limit={limit:?} prost={prost} dec_buffer={dec_buffer} msgs={sizes:?} mutations={muts:?} reference: {} items, defect {:?}", refr.items.len(), refr.defect));
 
-    let body = SimBody::new(sim, "in", evs, pending_pct, sim.chance(1, 4));
+    let body = Segmented::new(SimBody::new(sim, "in", evs, pending_pct, sim.chance(1, 4)));
     let tenc = enc.map(|e| e.tonic());
     let status = match direction {
         2 => StatusCode::from_u16(sim.pick(&[400u16, 401, 403, 404, 429, 500, 502, 503, 504, 204, 302])).unwrap(),
